@@ -43,11 +43,15 @@ let table_lines pr =
         pr (Printf.sprintf "E rpc %s mut=%s" name (b01 r.ApiView.r_mutates)))
     (Lazy.force api_rows)
 
+let flag_mgr hdr = kv_of hdr "mgr" "1" = "1" && kv_of hdr "enabled" "1" = "1"
+
 let run (id : string) (hdr : string list) (lines : string list list) (out : string -> unit) =
   let pr x = out (id ^ " " ^ x) in
   if kv_of hdr "kind" "prog" = "table" then table_lines pr
   else if kv_of hdr "kind" "prog" = "race" then pr "X race"
   else if kv_of hdr "kind" "prog" = "infolat" then pr "X infolat"
+  else if flag_mgr hdr && not (Stdlib.List.mem (kv_of hdr "mode" "replica") ["replica"; "primary"; "standalone"]) then
+    pr "X refused"   (* Manager.Start knows exactly these three spellings *)
   else begin
     let mode = match kv_of hdr "mode" "replica" with
       | "primary" -> RPrimary | "standalone" -> RStandalone | _ -> RReplica in
